@@ -141,6 +141,28 @@ class FnA:
     def live(self):
         return [self.blocks[n] for n in self.nodes]
 
+    def acyclic_view(self):
+        """a copy of this analysis with every loop back edge removed: reaching definitions
+        and origin terms then describe values produced within the current iteration only"""
+        if getattr(self, "_acyclic", None) is None:
+            v = FnA(self.body)
+            back = set()
+            for a in self.nodes:
+                for b in self.succ[a]:
+                    if self.dominates(b, a):
+                        back.add((a, b))
+            v.succ = {a: [b for b in ss if (a, b) not in back] for a, ss in self.succ.items()}
+            v.pred = defaultdict(list)
+            for a, ss in v.succ.items():
+                for b in ss:
+                    v.pred[b].append(a)
+            v._dom = None
+            v._pdom = None
+            v._rd_cache = {}
+            v._origin_cache = {}
+            self._acyclic = v
+        return self._acyclic
+
     def calls(self):
         for n in self.nodes:
             t = self.blocks[n].term
@@ -342,8 +364,11 @@ class FnA:
         proj = place["p"]
         if proj and self._mut_borrowed(l) and self.body.local_name(l):
             # a named local whose address escapes by `&mut`: its fields may be
-            # rewritten by callees, so do not fold through its initialiser
-            return self._project(("param", self.body.local_name(l)), proj, bi, pos, depth, seen)
+            # rewritten by callees, so do not fold through its initialiser.  It is named
+            # after its type (`~NodeQueue.extra`), not after the variable, so that renaming
+            # the variable changes no term.
+            nm = self.body.local_name(l) if 1 <= l <= self.body.arg_count else self.type_name(l)
+            return self._project(("param", nm), proj, bi, pos, depth, seen)
         base = self.origin_local(l, bi, pos, depth, seen)
         # partial definitions (`_x.f = v`) reaching here refine the field
         if proj:
@@ -358,6 +383,12 @@ class FnA:
                 terms.append(self._project(base, proj, bi, pos, depth, seen))
                 return mkjoin(terms)
         return self._project(base, proj, bi, pos, depth, seen)
+
+    def type_name(self, l):
+        ty = self.body.local_ty(l)
+        ty = re.sub(r"^(&mut |&)+", "", ty)
+        ty = re.sub(r"<.*$", "", ty)
+        return "~" + ty.split("::")[-1]
 
     def _mut_borrowed(self, l):
         if not hasattr(self, "_mb"):
@@ -487,7 +518,51 @@ class FnA:
             if v is not None:
                 return v
         at = tuple(self.origin_operand(a, bi, pos, depth, seen) for a in args)
-        return ("call", bi, callee_of(t), at)
+        c = callee_of(t)
+        s = self._summary(c)
+        if s is not None:
+            names, ret = s
+            if len(names) == len(at):
+                return subst_params(ret, dict(zip(names, at)))
+        return ("call", bi, c, at)
+
+    resolver = None  # set by the engine: callee name -> FnA (crate-local bodies)
+    _summaries = {}
+
+    def _summary(self, callee):
+        """(param names, return term) of a trivial crate-local function: straight-line, no calls
+        other than transparent ones, returning a value built only from its parameters —
+        e.g. a constructor `fn new(a, b) -> Self { Self { a, b } }`.  Lets provenance terms
+        see through small helpers so that extracting one does not change a verdict."""
+        if FnA.resolver is None or callee is None:
+            return None
+        if callee in FnA._summaries:
+            return FnA._summaries[callee]
+        FnA._summaries[callee] = None
+        fa = FnA.resolver(callee)
+        if fa is None or fa is self or fa.body.is_coroutine or len(fa.nodes) > 6 or callee in NO_SUMMARY:
+            return None
+        for n, t in fa.calls():
+            cal = t.get("callee")
+            if not (cal in TRANSPARENT or (cal or "").replace("core::", "std::") in TRANSPARENT):
+                return None
+        if any(fa.blocks[n].term["k"] in ("switch", "assert", "yield") for n in fa.nodes):
+            return None
+        if len(fa.returns) != 1:
+            return None
+        r = fa.returns[0]
+        ret = fa.origin_local(0, r, len(fa.blocks[r].stmts))
+        names = [fa.body.local_name(i + 1) or ("arg%d" % (i + 1)) for i in range(fa.body.arg_count)]
+        ok = True
+        for s_ in subterms(ret):
+            if isinstance(s_, tuple) and s_ and s_[0] in ("undef", "cycle", "unknown", "deep", "resume", "call"):
+                ok = False
+            if isinstance(s_, tuple) and s_ and s_[0] == "param" and s_[1] not in names:
+                ok = False
+        if not ok or ret[0] != "agg":
+            return None  # only constructor-like helpers
+        FnA._summaries[callee] = (names, ret)
+        return FnA._summaries[callee]
 
     def _vec_macro_contents(self, arg, bi, pos, depth, seen):
         """`vec![a, b]` expands to Box::new_uninit(); (*box).. = [a, b];
@@ -519,6 +594,20 @@ class FnA:
 
     def dest_uses_root(self, bi):
         return ("call", bi)
+
+
+# functions that rules anchor on as call sites: never inlined
+NO_SUMMARY = set()
+
+
+def subst_params(t, m):
+    if not isinstance(t, tuple) or not t:
+        return t
+    if t[0] == "param" and len(t) == 2 and t[1] in m:
+        return m[t[1]]
+    if t[0] == "field" and len(t) == 3:
+        return project_field(subst_params(t[1], m), t[2])
+    return tuple(subst_params(x, m) if isinstance(x, tuple) else x for x in t)
 
 
 def pred_to_succ(pred, nodes):
